@@ -26,6 +26,7 @@
 #include <signal.h>
 #include <pthread.h>
 #include <sys/syscall.h>
+#include <sys/wait.h>
 #include <atomic>
 #include <condition_variable>
 #include <memory>
@@ -95,8 +96,14 @@ void sentinel_info(int signo, siginfo_t *si, void *) {
 }
 void sentinel_info2(int signo, siginfo_t *si, void *ctx) { sentinel_info(signo, si, ctx); }
 
-enum DispKind { D_DFL = 0, D_IGN, D_PLAIN, D_PLAIN2, D_INFO, D_INFO2, D_KINDS };
-const char *dispname[] = {"DFL", "IGN", "handler", "handler2", "siginfo", "siginfo2"};
+//! D_DFL_SI / D_IGN_SI: SIG_DFL / SIG_IGN stored with the SA_SIGINFO flag set (legal: the kernel looks at the handler value only).
+//! D_IGN_SI is used by the disposition matrix only (there the delivery happens in a forked child).
+enum DispKind { D_DFL = 0, D_IGN, D_DFL_SI, D_PLAIN, D_PLAIN2, D_INFO, D_INFO2, D_KINDS_RANDOM, D_IGN_SI = D_KINDS_RANDOM, D_KINDS_ALL };
+const char *dispname[] = {"DFL", "IGN", "DFL_with_SA_SIGINFO", "handler", "handler2", "siginfo", "siginfo2", "IGN_with_SA_SIGINFO"};
+inline bool disp_is_default(int k) { return k == D_DFL || k == D_DFL_SI; }
+inline bool disp_is_plain(int k) { return k == D_PLAIN || k == D_PLAIN2; }
+inline bool disp_is_info(int k) { return k == D_INFO || k == D_INFO2; }
+inline bool disp_is_sentinel(int k) { return disp_is_plain(k) || disp_is_info(k); }
 
 struct Disp {
     int kind = D_DFL;
@@ -110,8 +117,8 @@ std::string disp_to_string(const struct sigaction &sa) {
     for (int s = 1; s < 65; ++s) if (sigismember(&sa.sa_mask, s) == 1) m += vh::fmt("%s%d", m.empty() ? "" : ",", s);
     const char *h = "?";
     void *p = (sa.sa_flags & SA_SIGINFO) ? (void *)sa.sa_sigaction : (void *)sa.sa_handler;
-    if (!(sa.sa_flags & SA_SIGINFO) && sa.sa_handler == SIG_DFL) h = "SIG_DFL";
-    else if (!(sa.sa_flags & SA_SIGINFO) && sa.sa_handler == SIG_IGN) h = "SIG_IGN";
+    if (p == (void *)SIG_DFL) h = "SIG_DFL";
+    else if (p == (void *)SIG_IGN) h = "SIG_IGN";
     else if (p == (void *)sentinel_plain) h = "sentinel_plain";
     else if (p == (void *)sentinel_plain2) h = "sentinel_plain2";
     else if (p == (void *)sentinel_info) h = "sentinel_info";
@@ -150,11 +157,15 @@ struct Ev {
     std::vector<int> sigs;          // signal indices
     int flavour = F_PERSIST;
     int init_style = 0;             // 0 int, 1 std::set, 2 initializer_list
+    int bad_signo = 0;              // badsig mode: a signal number nobody can subscribe to (SIGKILL, SIGSTOP, out of range) is in the set too
     SignalEvent *obj = nullptr;
     LoopCtx *lc = nullptr;
     // model
     bool alive = false;
     bool enabled = false;
+    //! enable() returned false (it could not subscribe to bad_signo). What that leaves behind is not specified, so until
+    //! the event is destroyed its callbacks are not judged and the signals of its set are exempt from the disposition check
+    bool indeterminate = false;
     // observed (written on the loop thread inside the callback, read by the orchestrator after a barrier)
     std::atomic<uint32_t> got[NSIG_USED];
     std::atomic<uint32_t> got_foreign_signo{0};
@@ -183,10 +194,14 @@ struct Case {
     bool multi_loop_same_signal_delivery = false;
     bool full_cycle_mid_history = false;
     int prev_cnt[NSIG_USED];
+    bool failed_enable_destroyed[NSIG_USED];    // an event whose enable() had failed, with this signal in its set, was destroyed
     bool in_teardown = false;
-    std::string sample_script;
+    bool only_raise = false;            // TSan leg: raise() only (TSan runs a self-directed raise() handler synchronously, not pthread_sigqueue)
+    //! a loop notified by the current delivery may unsubscribe (one-shot, or a callback that disables / re-enables its own
+    //! event) on its own thread while the process-level handler is still running on the raising thread
+    bool reaction_may_overlap_handler = false;
     uint32_t sent_plain_seen[NSIG_USED], sent_info_seen[NSIG_USED];
-    Case() { for (auto &p : prev_cnt) p = 0; for (auto &p : sent_plain_seen) p = 0; for (auto &p : sent_info_seen) p = 0; }
+    Case() { for (auto &p : prev_cnt) p = 0; for (auto &p : failed_enable_destroyed) p = false; for (auto &p : sent_plain_seen) p = 0; for (auto &p : sent_info_seen) p = 0; }
 };
 
 void say(Case &C, const std::string &s) {
@@ -255,6 +270,8 @@ void install_disp(Case &C, int si, int kind, int flags_sel, unsigned mask_bits) 
         case D_IGN: sa.sa_handler = SIG_IGN; break;
         case D_PLAIN: sa.sa_handler = sentinel_plain; break;
         case D_PLAIN2: sa.sa_handler = sentinel_plain2; break;
+        case D_DFL_SI: sa.sa_sigaction = (void (*)(int, siginfo_t *, void *))SIG_DFL; sa.sa_flags |= SA_SIGINFO; break;
+        case D_IGN_SI: sa.sa_sigaction = (void (*)(int, siginfo_t *, void *))SIG_IGN; sa.sa_flags |= SA_SIGINFO; break;
         case D_INFO: sa.sa_sigaction = sentinel_info; sa.sa_flags |= SA_SIGINFO; break;
         default: sa.sa_sigaction = sentinel_info2; sa.sa_flags |= SA_SIGINFO; break;
     }
@@ -268,12 +285,16 @@ void install_disp(Case &C, int si, int kind, int flags_sel, unsigned mask_bits) 
 void check_dispositions(Case &C, const char *after) {
     for (int si : C.used_sigs) {
         int cnt = model_count(C, si);
+        bool exempt = false;
+        for (auto &e : C.evs) if (e->alive && e->indeterminate && e->has(si)) exempt = true;
+        if (exempt) { vh::counter("disposition_check_exempt_failed_enable_alive"); continue; }
         if (cnt == 0) {
             struct sigaction cur;
             if (::sigaction(g_signo[si], nullptr, &cur) != 0) continue;
             vh::counter("disposition_checks_no_subscriber");
             if (!same_disp(cur, C.disp[si].snap)) {
-                fail(C, std::string("disposition/not-restored/") + (C.prev_cnt[si] > 0 ? "after-last-unsubscribe" : "while-unsubscribed"),
+                fail(C, std::string("disposition/not-restored/") + (C.failed_enable_destroyed[si] ? "after-destroying-event-whose-enable-failed"
+                                                                   : C.prev_cnt[si] > 0 ? "after-last-unsubscribe" : "while-unsubscribed"),
                      vh::fmt("signal %s(%d) has no enabled subscriber after '%s' but sigaction() reports %s; before the first "
                              "subscription it was %s", g_signame[si], g_signo[si], after, disp_to_string(cur).c_str(),
                              disp_to_string(C.disp[si].snap).c_str()));
@@ -312,13 +333,16 @@ void op_create(Case &C, Ev &e) {
     on_loop(L, [&] {
         e.obj = L.loop->newSignalEvent("c04");
         Event::Mode mode = (e.flavour == F_ONESHOT || e.flavour == F_REARM) ? Event::Mode::kOneshot : Event::Mode::kPersist;
-        if (e.init_style == 0 && e.sigs.size() == 1) {
+        if (e.init_style == 0 && e.sigs.size() == 1 && !e.bad_signo) {
             init_ok = e.obj->initialize(g_signo[e.sigs[0]], mode);
-        } else if (e.init_style == 2 && e.sigs.size() == 2) {
+        } else if (e.init_style == 2 && e.sigs.size() == 2 && !e.bad_signo) {
             init_ok = e.obj->initialize({g_signo[e.sigs[0]], g_signo[e.sigs[1]]}, mode);
+        } else if (e.init_style == 2 && e.sigs.size() == 1 && e.bad_signo) {
+            init_ok = e.obj->initialize({g_signo[e.sigs[0]], e.bad_signo}, mode);
         } else {
             std::set<int> s;
             for (int si : e.sigs) s.insert(g_signo[si]);
+            if (e.bad_signo) s.insert(e.bad_signo);
             init_ok = e.obj->initialize(s, mode);
         }
         Ev *ep = &e;
@@ -352,6 +376,14 @@ void op_compound(Case &C, LoopCtx &L, const std::vector<MiniOp> &ops) {
         Ev &e = *ops[i].e;
         switch (ops[i].kind) {
             case 0:
+                if (e.bad_signo && !res[i].ret) {
+                    // refused, as it must be for a set that cannot be subscribed to completely; the event is not enabled
+                    vh::counter("enable_failed_on_unsubscribable_signal");
+                    if (!e.enabled) e.indeterminate = true;
+                    if (res[i].is_enabled && !e.enabled)
+                        fail(C, "api/isEnabled-true-after-enable-returned-false", vh::fmt("e%d: enable() returned false but isEnabled() is true", e.id));
+                    break;
+                }
                 if (e.enabled) vh::counter("enable_while_enabled");
                 for (int si : e.sigs) {
                     if (!e.enabled && model_count(C, si) > 0 && model_count_loop(C, si, e.loop) == 0) vh::counter("subscribe_second_loop_joins");
@@ -376,6 +408,10 @@ void op_compound(Case &C, LoopCtx &L, const std::vector<MiniOp> &ops) {
                     check_is_enabled(C, e, res[i].is_enabled, "disable");
                 } else {
                     e.alive = false;
+                    if (e.indeterminate) {
+                        vh::counter("destroyed_event_whose_enable_failed");
+                        for (int si : e.sigs) C.failed_enable_destroyed[si] = true;
+                    }
                 }
                 break;
             }
@@ -408,20 +444,25 @@ void check_after_deliveries(Case &C, const std::vector<Delivery> &ds, const std:
             int delta = (int)(now - e.seen[si]);
             e.seen[si] = now;
             int want = expect[k][si];
+            if (e.indeterminate && e.alive) { if (delta) vh::counter("callbacks_on_event_whose_enable_failed_not_judged", delta); continue; }
             if (delta == want) { if (want) vh::counter("callbacks_matched", want); continue; }
             std::string what = vh::fmt("e%d (loop %d/%s, %s, signals", e.id, e.loop, C.loops[e.loop]->engine.c_str(), flname[e.flavour]);
             for (int s : e.sigs) what += vh::fmt(" %s", g_signame[s]);
             what += vh::fmt(") got %d callback(s) for %s(%d) after %zu delivery(ies); the model expects %d", delta, g_signame[si], g_signo[si], ds.size(), want);
+            const char *ctx = C.reaction_may_overlap_handler ? "/notified-loop-unsubscribes-while-handler-runs" : "";
+            if (C.reaction_may_overlap_handler)
+                what += " [in this delivery a one-shot / self-disabling event of a loop other than the raising thread was subscribed: its loop "
+                        "unsubscribes on its own thread as soon as it is notified, possibly before the handler on the raising thread has returned]";
             if (delta < want) {
-                fail(C, "deliver/callback-missing", what);
+                fail(C, std::string("deliver/callback-missing") + ctx, what);
             } else if (!e.has(si)) {
-                fail(C, "deliver/callback-for-signal-not-in-event-set", what);
+                fail(C, std::string("deliver/callback-for-signal-not-in-event-set") + ctx, what);
             } else if (!was_enabled_for[k][si] || !e.alive) {
-                fail(C, "deliver/callback-on-event-that-is-not-enabled", what);
+                fail(C, std::string("deliver/callback-on-event-that-is-not-enabled") + ctx, what);
             } else if (e.flavour == F_ONESHOT) {
-                fail(C, "oneshot/fired-more-than-once", what);
+                fail(C, std::string("oneshot/fired-more-than-once") + ctx, what);
             } else {
-                fail(C, "deliver/callback-duplicated", what);
+                fail(C, std::string("deliver/callback-duplicated") + ctx, what);
             }
         }
     }
@@ -429,8 +470,8 @@ void check_after_deliveries(Case &C, const std::vector<Delivery> &ds, const std:
     int want_plain[NSIG_USED] = {0}, want_info[NSIG_USED] = {0};
     for (auto &d : ds) {
         int k = C.disp[d.si].kind;
-        if (k == D_PLAIN || k == D_PLAIN2) ++want_plain[d.si];
-        if (k == D_INFO || k == D_INFO2) ++want_info[d.si];
+        if (disp_is_plain(k)) ++want_plain[d.si];
+        if (disp_is_info(k)) ++want_info[d.si];
     }
     if (g_sent_unknown.load()) fail(C, "sentinel/called-with-unknown-signal", "a sentinel handler was called with a signal number nobody raised");
     for (int si = 0; si < NSIG_USED; ++si) {
@@ -456,7 +497,7 @@ void check_after_deliveries(Case &C, const std::vector<Delivery> &ds, const std:
     if (ds.size() == 1) {
         const Delivery &d = ds[0];
         int k = C.disp[d.si].kind;
-        if ((k == D_INFO || k == D_INFO2) && !C.failed) {
+        if (disp_is_info(k) && !C.failed) {
             SentinelRec &r = g_sent[d.si];
             if (r.last_si_signo.load() != g_signo[d.si])
                 fail(C, "sentinel/previous-handler-got-bad-arguments", vh::fmt("si_signo=%d for signal %d", r.last_si_signo.load(), g_signo[d.si]));
@@ -501,12 +542,17 @@ void deliver(Case &C, const std::vector<Delivery> &ds, Pending *defer = nullptr)
     for (size_t k = 0; k < ne; ++k)
         for (int si = 0; si < NSIG_USED; ++si)
             was[k][si] = C.evs[k]->alive && C.evs[k]->enabled && C.evs[k]->has(si);
+    C.reaction_may_overlap_handler = false;
     for (auto &d : ds) {
         std::set<int> loops_hit; int receivers = 0;
         for (size_t k = 0; k < ne; ++k) {
             Ev &e = *C.evs[k];
             if (!(e.alive && e.enabled && e.has(d.si))) continue;
             ++expect[k][d.si]; ++receivers; loops_hit.insert(e.loop);
+            if (e.flavour != F_PERSIST && C.loops[e.loop]->running && !(d.via == V_LOOP_RAISE && d.loop == e.loop)) {
+                C.reaction_may_overlap_handler = true;
+                vh::counter("window_reaction_may_overlap_handler");
+            }
             if (e.flavour == F_ONESHOT || e.flavour == F_SELF_DISABLE) {
                 e.enabled = false;
                 vh::counter(e.flavour == F_ONESHOT ? "oneshot_fired" : "self_disable_fired");
@@ -516,7 +562,7 @@ void deliver(Case &C, const std::vector<Delivery> &ds, Pending *defer = nullptr)
         }
         vh::counter("deliveries");
         vh::counter(vh::fmt("deliveries_to_%d_loops", (int)std::min<size_t>(loops_hit.size(), 3)));
-        if (receivers == 0) vh::counter(C.disp[d.si].kind >= D_PLAIN ? "deliveries_no_subscriber_sentinel_only" : "deliveries_no_subscriber_ignored");
+        if (receivers == 0) vh::counter(disp_is_sentinel(C.disp[d.si].kind) ? "deliveries_no_subscriber_sentinel_only" : "deliveries_no_subscriber_ignored");
         if (receivers >= 2) vh::counter("deliveries_to_several_events");
         if (loops_hit.size() >= 2 && receivers >= 2) C.multi_loop_same_signal_delivery = true;
         if (d.via == V_LOOP_RAISE) vh::counter("deliveries_raised_on_a_loop_thread");
@@ -552,6 +598,7 @@ void stop_loop(LoopCtx &L) {
 const char *evdesc(Ev &e, std::string &buf) {
     buf = vh::fmt("e%d@L%d[", e.id, e.loop);
     for (size_t i = 0; i < e.sigs.size(); ++i) buf += vh::fmt("%s%s", i ? "," : "", g_signame[e.sigs[i]]);
+    if (e.bad_signo) buf += vh::fmt(",+unsubscribable signal %d", e.bad_signo);
     buf += vh::fmt("](%s,init-style %d)", flname[e.flavour], e.init_style);
     return buf.c_str();
 }
@@ -588,13 +635,43 @@ void teardown(Case &C, bool stop_first) {
     }
 }
 
-void finish_case(Case &C, bool stop_first, int nloops) {
+char **g_argv = nullptr;
+int g_argc = 0;
+
+//! A violation means the process-wide signal bookkeeping of the library (and the disposition table) may be stale; judging
+//! further cases in this process would only produce secondary alarms. Finish this process's report and continue the shard
+//! in a fresh process image (same pid, so the runner does not notice).
+void continue_in_fresh_process(uint64_t idx) {
+    vh::Args &a = vh::st().args;
+    vh::end_case();
+    vh::finish();
+    fflush(stdout); fflush(stderr);
+    uint64_t next = idx + 1, end = a.first + a.count;
+    if (next >= end) _exit(0);
+    std::vector<std::string> args;
+    for (int i = 0; i < g_argc; ++i) {
+        std::string k = g_argv[i];
+        if ((k == "--first" || k == "--count") && i + 1 < g_argc) { ++i; continue; }
+        args.push_back(k);
+    }
+    args.push_back("--first"); args.push_back(std::to_string(next));
+    args.push_back("--count"); args.push_back(std::to_string(end - next));
+    std::vector<char *> av;
+    for (auto &x : args) av.push_back(const_cast<char *>(x.c_str()));
+    av.push_back(nullptr);
+    execv("/proc/self/exe", av.data());
+    fprintf(stderr, "VH-FATAL: re-exec\n");
+    _exit(98);
+}
+
+void finish_case(Case &C, bool stop_first, int nloops, uint64_t idx) {
     bool two_on_one = C.multi_loop_same_signal_delivery;
     teardown(C, stop_first);
     bool nontrivial = nloops >= 2 && two_on_one && C.full_cycle_mid_history && !C.failed;
     vh::note_case(C.sig.h, nontrivial);
     if (nontrivial && vh::want_sample())
         vh::sample(vh::jstr(vh::st().case_desc.substr(0, 3000)));
+    if (C.failed) continue_in_fresh_process(idx);
 }
 
 void reset_globals() {
@@ -608,11 +685,10 @@ void reset_globals() {
 // random histories
 // ------------------------------------------------------------------------------------------------
 void random_case(uint64_t idx, vh::Rng &r) {
-    (void)idx;
     reset_globals();
     Case C; C.rng = &r;
-    const bool tsan_smoke = vh::st().args.num("smoke", 0) != 0;
-    (void)tsan_smoke;
+    C.only_raise = vh::st().args.num("only-raise", 0) != 0;
+    const bool badsig = vh::st().args.mode == "badsig";
 
     // signals of this case: few, so that several events share one
     int nsig = 1 + (int)r.below(3) + (r.chance(1, 4) ? 1 : 0);
@@ -624,9 +700,9 @@ void random_case(uint64_t idx, vh::Rng &r) {
         // signals not used by the case are ignored so that a stray delivery cannot kill the process
         bool used = false; for (int u : C.used_sigs) if (u == si) used = true;
         if (!used) { install_disp(C, si, D_IGN, 0, 0); continue; }
-        int kind = (int)r.below(D_KINDS);
+        int kind = (int)r.below(D_KINDS_RANDOM);
         if (r.chance(1, 3)) kind = r.chance(1, 2) ? D_PLAIN : D_INFO;
-        install_disp(C, si, kind, (int)r.below(5), kind <= D_IGN ? 0 : (unsigned)r.below(128));
+        install_disp(C, si, kind, (int)r.below(5), disp_is_sentinel(kind) ? (unsigned)r.below(128) : 0);
         vh::counter(std::string("old_disposition_") + dispname[kind]);
         say(C, vh::fmt("disposition %s=%s", g_signame[si], disp_to_string(C.disp[si].snap).c_str()));
     }
@@ -659,7 +735,19 @@ void random_case(uint64_t idx, vh::Rng &r) {
         int fl = F_PERSIST;
         unsigned f = (unsigned)r.below(20);
         if (f >= 11 && f < 16) fl = F_ONESHOT; else if (f >= 16 && f < 18) fl = F_SELF_DISABLE; else if (f >= 18) fl = F_REARM;
+        int bad = 0;
+        if (badsig && r.chance(2, 5)) {
+            // a set that cannot be subscribed to completely: SIGKILL / SIGSTOP cannot be caught, 100 is not a signal number.
+            // Which signals of the set are tried first depends on the numeric order (SIGHUP < SIGKILL < SIGUSR1 < SIGUSR2 < SIGSTOP < RT)
+            static const int bads[] = {SIGKILL, SIGSTOP, 100};
+            bad = bads[r.below(3)];
+            fl = F_PERSIST;
+            style = (sigs.size() == 1 && r.chance(1, 2)) ? 2 : 1;
+            vh::counter("events_with_unsubscribable_signal");
+        }
         Ev &e = new_ev(C, loop, sigs, fl, style);
+        e.bad_signo = bad;
+        C.sig.add(bad);
         C.sig.add(loop); C.sig.add(fl); C.sig.add(style); for (int s : sigs) C.sig.add(100 + s);
         vh::counter(std::string("events_") + (fl == F_PERSIST ? "persist" : fl == F_ONESHOT ? "oneshot" : fl == F_SELF_DISABLE ? "self_disable" : "rearm"));
         vh::counter(vh::fmt("init_style_%d", style));
@@ -692,9 +780,9 @@ void random_case(uint64_t idx, vh::Rng &r) {
             bool selfmod = any_self_modifying_enabled(C);
             for (int i = 0; i < nd; ++i) {
                 int si = r.pick(C.used_sigs);
-                if (model_count(C, si) == 0 && C.disp[si].kind == D_DFL) continue;
+                if (model_count(C, si) == 0 && disp_is_default(C.disp[si].kind)) continue;
                 if (selfmod && !ds.empty()) break;
-                ds.push_back(Delivery{si, r.chance(1, 3) ? V_SIGQUEUE : V_RAISE, 0, (long)(r.below(1000000) + 1)});
+                ds.push_back(Delivery{si, (r.chance(1, 3) && !C.only_raise) ? V_SIGQUEUE : V_RAISE, 0, (long)(r.below(1000000) + 1)});
             }
             if (!ds.empty()) {
                 for (auto &d : ds) {
@@ -772,8 +860,8 @@ void random_case(uint64_t idx, vh::Rng &r) {
             for (int si : C.used_sigs) if (model_count(C, si) == 0) free_sigs.push_back(si);
             if (!free_sigs.empty()) {
                 int si = r.pick(free_sigs);
-                int kind = (int)r.below(D_KINDS);
-                install_disp(C, si, kind, (int)r.below(5), kind <= D_IGN ? 0 : (unsigned)r.below(128));
+                int kind = (int)r.below(D_KINDS_RANDOM);
+                install_disp(C, si, kind, (int)r.below(5), disp_is_sentinel(kind) ? (unsigned)r.below(128) : 0);
                 say(C, vh::fmt("re-install disposition %s=%s", g_signame[si], disp_to_string(C.disp[si].snap).c_str()));
                 vh::counter("disposition_changed_between_cycles");
             }
@@ -787,8 +875,9 @@ void random_case(uint64_t idx, vh::Rng &r) {
             int si0 = r.pick(C.used_sigs);
             for (int i = 0; i < nd; ++i) {
                 int si = same_sig ? si0 : r.pick(C.used_sigs);
-                if (model_count(C, si) == 0 && C.disp[si].kind == D_DFL) continue;    // the default action would end the process
+                if (model_count(C, si) == 0 && disp_is_default(C.disp[si].kind)) continue;    // the default action would end the process
                 int via = (int)r.below(10); via = via < 5 ? V_RAISE : via < 7 ? V_SIGQUEUE : V_LOOP_RAISE;
+                if (C.only_raise && via == V_SIGQUEUE) via = V_RAISE;
                 Delivery d{si, via, (int)r.below(nloops), (long)(r.below(1000000) + 1)};
                 ds.push_back(d);
                 C.sig.add(5000 + si * 100 + via * 10 + d.loop);
@@ -805,7 +894,7 @@ void random_case(uint64_t idx, vh::Rng &r) {
         }
         if (!C.failed) check_dispositions(C, "the last step");
     }
-    finish_case(C, r.chance(1, 3), nloops);
+    finish_case(C, r.chance(1, 3), nloops, idx);
 }
 
 // ------------------------------------------------------------------------------------------------
@@ -846,6 +935,121 @@ void enum_case(uint64_t idx, vh::Rng &r) {
     bool two = C.multi_loop_same_signal_delivery;
     teardown(C, false);
     vh::note_case(C.sig.h, two && !C.failed);
+    if (C.failed) continue_in_fresh_process(idx);
+}
+
+// ------------------------------------------------------------------------------------------------
+// disposition matrix (exhaustive): every disposition kind x flag set x back-end x event mode x raising call.
+// One loop, driven with runLoop(kOnce) on the only thread, so the process can fork: the delivery is first tried in a
+// forked child (a delivery that kills the process is then an observation, not the end of the run) and then repeated in
+// the parent, followed by disable() and the restoration check.
+// ------------------------------------------------------------------------------------------------
+struct MatrixObs { int callbacks = 0; int wrong_signo = 0; };
+
+void pump(Loop *loop, int passes) {
+    for (int i = 0; i < passes; ++i) {
+        loop->runNext([] {}, "c04-pump");       // keeps the back-end wait from blocking
+        loop->runLoop(Loop::Mode::kOnce);
+    }
+}
+
+const uint64_t MATRIX_CASES = (uint64_t)D_KINDS_ALL * 5 * 2 * 2 * 2;
+
+void matrix_case(uint64_t idx, vh::Rng &r) {
+    reset_globals();
+    Case C; C.rng = &r;
+    uint64_t c = idx % MATRIX_CASES;
+    int kind = (int)(c % D_KINDS_ALL); c /= D_KINDS_ALL;
+    int flags_sel = (int)(c % 5); c /= 5;
+    std::string engine = (c % 2) ? "select" : "epoll"; c /= 2;
+    bool oneshot = (c % 2) != 0; c /= 2;
+    int via = (c % 2) ? V_SIGQUEUE : V_RAISE;
+    const int si = 1;   // SIGUSR2
+    C.used_sigs.push_back(si);
+    for (int s = 0; s < NSIG_USED; ++s) if (s != si) install_disp(C, s, D_IGN, 0, 0);
+    install_disp(C, si, kind, flags_sel, disp_is_sentinel(kind) ? 0x15 : 0);
+    C.sig.add(idx);
+    say(C, vh::fmt("matrix: old disposition of USR2 %s, loop %s, %s event, delivery by %s", disp_to_string(C.disp[si].snap).c_str(), engine.c_str(),
+                   oneshot ? "one-shot" : "persistent", via == V_RAISE ? "raise" : "pthread_sigqueue"));
+    vh::counter(std::string("matrix_old_disposition_") + dispname[kind]);
+
+    auto fire = [&] {
+        if (via == V_SIGQUEUE) { union sigval v; v.sival_ptr = (void *)4242; pthread_sigqueue(pthread_self(), g_signo[si], v); }
+        else ::raise(g_signo[si]);
+    };
+    auto sentinel_ok = [&]() -> bool {
+        uint32_t p = g_sent[si].plain_calls.load(), i = g_sent[si].info_calls.load();
+        if (disp_is_plain(kind)) return p == 1 && i == 0;
+        if (disp_is_info(kind)) return p == 0 && i == 1 && g_sent[si].last_si_signo.load() == g_signo[si] &&
+                                       (via != V_SIGQUEUE || g_sent[si].last_si_value.load() == 4242);
+        return p == 0 && i == 0;
+    };
+    // the whole scenario; bit 0 enable failed, 1 callback count, 2 sentinel, 3 isEnabled, 4 disable failed, 5 disposition not restored
+    struct sigaction after;
+    int callbacks = 0;
+    auto scenario = [&]() -> int {
+        int code = 0;
+        Loop *loop = Loop::New(engine);
+        SignalEvent *ev = loop->newSignalEvent("c04-matrix");
+        MatrixObs obs;
+        ev->initialize(g_signo[si], oneshot ? Event::Mode::kOneshot : Event::Mode::kPersist);
+        ev->setCallback([&obs, si](int signo) { if (signo == g_signo[si]) ++obs.callbacks; else ++obs.wrong_signo; });
+        if (!ev->enable()) code |= 1;
+        fire();
+        pump(loop, 3);
+        callbacks = obs.callbacks;
+        if (obs.callbacks != 1 || obs.wrong_signo) code |= 2;
+        if (!sentinel_ok()) code |= 4;
+        if (ev->isEnabled() != !oneshot) code |= 8;
+        if (!ev->disable()) code |= 16;
+        ::sigaction(g_signo[si], nullptr, &after);
+        if (!same_disp(after, C.disp[si].snap)) code |= 32;
+        delete ev;
+        pump(loop, 2);
+        delete loop;
+        return code;
+    };
+
+    // 1. in a forked child (this process is single-threaded, so fork is safe): a delivery that kills the process is an observation
+    fflush(stdout); fflush(stderr);
+    pid_t pid = fork();
+    if (pid == 0) {
+        int devnull = open("/dev/null", O_WRONLY);
+        if (devnull >= 0) { dup2(devnull, 1); dup2(devnull, 2); }   // a sanitizer report of the child must not be mistaken for the parent's
+        _exit(64 + scenario());
+    }
+    int status = 0;
+    if (pid < 0 || waitpid(pid, &status, 0) != pid) { fprintf(stderr, "VH-FATAL: fork\n"); abort(); }
+    vh::counter("matrix_scenarios_in_forked_child");
+    if (WIFSIGNALED(status) || (WIFEXITED(status) && (WEXITSTATUS(status) < 64 || WEXITSTATUS(status) > 127))) {
+        fail(C, std::string("deliver/process-killed-by-the-delivery/old-disposition-") + dispname[kind],
+             vh::fmt("with an enabled %s signal event on USR2 (%s loop) and the pre-existing disposition %s, one %s(SIGUSR2) terminated the (forked) "
+                     "process: %s %d", oneshot ? "one-shot" : "persistent", engine.c_str(), disp_to_string(C.disp[si].snap).c_str(),
+                     via == V_RAISE ? "raise" : "pthread_sigqueue", WIFSIGNALED(status) ? "killed by signal" : "sanitizer exit status",
+                     WIFSIGNALED(status) ? WTERMSIG(status) : WEXITSTATUS(status)));
+    }
+    // 2. the same scenario in this process, judged in detail
+    if (!C.failed) {
+        int code = scenario();
+        vh::counter("deliveries");
+        if (oneshot) vh::counter("oneshot_fired");
+        vh::counter("last_unsubscribe_restore_checked");
+        vh::counter(std::string("restore_checked_old_") + dispname[kind]);
+        if (code & 1) fail(C, "api/enable-returned-false", "matrix: enable() returned false");
+        if (code & 2) fail(C, callbacks < 1 ? "deliver/callback-missing" : "deliver/callback-duplicated", vh::fmt("matrix: %d callbacks for one delivery", callbacks));
+        if (code & 4) fail(C, "sentinel/previous-handler-not-invoked/while-subscribed",
+                           vh::fmt("matrix: sentinel sa_handler ran %u time(s), sa_sigaction %u time(s), si_value %ld", g_sent[si].plain_calls.load(),
+                                   g_sent[si].info_calls.load(), g_sent[si].last_si_value.load()));
+        if (code & 8) fail(C, "api/isEnabled-mismatch", "matrix: isEnabled() after the delivery");
+        if (code & 16) fail(C, "api/disable-returned-false", "matrix");
+        if (code & 32) fail(C, "disposition/not-restored/after-last-unsubscribe",
+                            vh::fmt("matrix: after disable() sigaction() reports %s; before the subscription it was %s", disp_to_string(after).c_str(),
+                                    disp_to_string(C.disp[si].snap).c_str()));
+    }
+    for (int s = 0; s < NSIG_USED; ++s) { struct sigaction sa; memset(&sa, 0, sizeof sa); sigemptyset(&sa.sa_mask); sa.sa_handler = SIG_IGN; ::sigaction(g_signo[s], &sa, nullptr); }
+    vh::note_case(C.sig.h, !C.failed);
+    if (vh::want_sample(2)) vh::sample(vh::jstr(vh::st().case_desc), 2);
+    if (C.failed) continue_in_fresh_process(idx);
 }
 
 }  // namespace
@@ -853,8 +1057,10 @@ void enum_case(uint64_t idx, vh::Rng &r) {
 int main(int argc, char **argv) {
     g_signo[0] = SIGUSR1; g_signo[1] = SIGUSR2; g_signo[2] = SIGHUP;
     g_signo[3] = SIGRTMIN + 3; g_signo[4] = SIGRTMIN + 4; g_signo[5] = SIGRTMIN + 5;
+    g_argc = argc; g_argv = argv;
     return vh::run(argc, argv, [](uint64_t idx, vh::Rng &r) {
         if (vh::st().args.mode == "enum") enum_case(idx, r);
+        else if (vh::st().args.mode == "matrix") matrix_case(idx, r);
         else random_case(idx, r);
     });
 }
